@@ -137,9 +137,9 @@ class Engine:
             self._model = None
 
     def assume(self, c):
+        """feasibility is checked lazily: the next decision (or the end of the path) asks for a model"""
         if isinstance(c, SymBool):
             self.assume_expr(c.e)
-            self.model()      # raises PathEnd when infeasible
         elif not c:
             raise PathEnd()
 
@@ -170,7 +170,9 @@ class Engine:
             if ent[3] != chash:
                 raise HarnessError('replay divergence: a different condition is met at decision %d' % self.pos)
             self.pos += 1
-            self._pending.append(cond if choice else _not(cond, cid))
+            c = cond if choice else _not(cond, cid)
+            self._pending.append(c)
+            self._asserted.append(c)
             self._facts[cid] = choice
             self._pinned(pin, choice)
             if self._model is not None:
@@ -192,7 +194,9 @@ class Engine:
         self.prefix.append([choice, other_ok, None, chash])
         self.pos += 1
         self.decisions += 1
-        self._pending.append(cond if choice else ncond)
+        c = cond if choice else ncond
+        self._pending.append(c)
+        self._asserted.append(c)
         self._facts[cid] = choice
         self._pinned(pin, choice)
         return choice
@@ -237,6 +241,7 @@ class Engine:
         self.inputs = []
         self._model = None
         self._pending = []
+        self._asserted = []
         self._facts = {}
         self._values = {}
         self._alive = []
@@ -604,6 +609,7 @@ def _explore_subtree(scenario, params, harness, seed, prefix, fixed, deadline, m
             try:
                 try:
                     scenario(src, **params)
+                    eng.model()          # raises PathEnd if a late assumption made the path infeasible
                     completed = True
                 except _Frontier:
                     jobs.append([list(p) for p in eng.prefix])
@@ -707,15 +713,23 @@ def explore(scenario, params=None, harness='h', seed=0, timeout=None, max_paths=
         total.merge(res)
         total.wall_s = time.time() - t0
         return total
-    # parent: expand the decision tree to a frontier, then distribute the sub-trees
-    depth = 5
-    while True:
-        res, jobs, left = _explore_subtree(scenario, params, harness, seed, [], 0, deadline, max_paths,
-                                           validate_every, depth, classify)
-        if not jobs or len(jobs) >= 20 * workers or depth >= 20 or not res.exhaustive:
+    # parent: expand the decision tree to a frontier (incrementally, sub-tree by sub-tree), then distribute
+    jobs = [[]]
+    ok = True
+    for _round in range(8):
+        newjobs = []
+        for j in jobs:
+            res, sub, left = _explore_subtree(scenario, params, harness, seed, j, len(j), deadline, max_paths,
+                                              validate_every, len(j) + (6 if _round == 0 else 3), classify)
+            total.merge(res)
+            newjobs.extend(sub)
+            if not res.exhaustive:
+                ok = False
+                break
+        jobs = newjobs
+        if not ok or not jobs or len(jobs) >= 8 * workers:
             break
-        depth += 3
-    total.merge(res)
+    res = total
     if jobs and res.exhaustive:
         random.Random(seed).shuffle(jobs)
         pending = [(j, len(j), False) for j in jobs]
